@@ -42,6 +42,11 @@ pub struct Case {
     pub steps: Vec<Step>,
     /// the action whose every storage call is interrupted
     pub last: KAction,
+    /// X is a brand-new replica and the server offers a snapshot (taken at some point of the
+    /// other replica's history) followed by later versions; X's own prior steps are skipped
+    /// and the interrupted action is its first sync
+    #[serde(default)]
+    pub fresh_from_snapshot: bool,
 }
 
 fn status_intent() -> impl Strategy<Value = Intent> {
@@ -77,8 +82,13 @@ pub fn strategy() -> BoxedStrategy<Case> {
             0..8,
         ),
         kaction(),
+        prop_oneof![5 => Just(false), 1 => Just(true)],
     )
-        .prop_map(|(steps, last)| Case { steps, last })
+        .prop_map(|(steps, last, fresh_from_snapshot)| Case {
+            steps,
+            last: if fresh_from_snapshot { KAction::Sync } else { last },
+            fresh_from_snapshot,
+        })
         .boxed()
 }
 
@@ -179,8 +189,10 @@ pub fn check_case(c: &Case) -> CheckResult {
         let mut y = Rep::mem(&pool());
         let (mut hx, _) = server.handle(0);
         let (mut hy, _) = server.handle(1);
+        let mut snaps: Vec<(taskchampion::Uuid, Vec<u8>)> = vec![];
         for s in &c.steps {
             match s {
+                Step::X(_) if c.fresh_from_snapshot => {}
                 Step::X(a) => match run_action(&mut x, &mut hx, &mut rx, a) {
                     Some(Ok(())) => {}
                     other => crate::fail!("action-error", "prior action {a:?} failed: {:?}", other.map(|r| r.map_err(|e| e.to_string()))),
@@ -191,8 +203,17 @@ pub fn check_case(c: &Case) -> CheckResult {
                     ry.realize(intents, &mut local, &mut ops);
                     y.commit(ops).map_err(|e| Failure::new("commit-error", format!("{e}")))?;
                     y.sync(&mut hy, false).map_err(|e| Failure::new("sync-error", format!("{e}")))?;
+                    let latest = server.state.borrow().latest();
+                    if !latest.is_nil() {
+                        snaps.push((latest, super::c12::encode_snapshot(&y.tasks())));
+                    }
                 }
             }
+        }
+        if c.fresh_from_snapshot && !snaps.is_empty() {
+            // a snapshot from the middle of the history, so that later versions follow it
+            let (v, b) = snaps[snaps.len() / 2].clone();
+            server.state.borrow_mut().offer = Some((v, b));
         }
     } // X closed
     let s0: ServerState = server.state.borrow().clone();
@@ -244,6 +265,9 @@ pub fn check_case(c: &Case) -> CheckResult {
     if states.len() > 2 {
         rep.class("composite-action-with-2+-transactions");
     }
+    if c.fresh_from_snapshot && s0.offer.is_some() {
+        rep.class("first-sync-of-a-fresh-replica-from-a-snapshot");
+    }
     // every storage call x {error, stop}
     for i in 0..n {
         for kind in [StorageFault::Err, StorageFault::Stop] {
@@ -257,6 +281,17 @@ pub fn check_case(c: &Case) -> CheckResult {
                 "fault at storage call {i} ({kind:?}) of {:?}: {commits} transactions committed, the fault-free run has {}",
                 c.last,
                 states.len() - 1
+            );
+            // the documented before/after guarantee: everything but the working set is either
+            // entirely as before the action or entirely as after it
+            let core = |d: &Dump| (d.tasks.clone(), d.base, d.unsynced.clone(), d.task_ops.clone());
+            let (b, a) = (&states[0], states.last().unwrap());
+            crate::ensure!(
+                (core(&got) == core(b) || core(&got) == core(a))
+                    && (got.working_set == b.working_set || got.working_set == a.working_set || states.iter().any(|s| s.working_set == got.working_set)),
+                format!("crash-intermediate-state:{kind:?}"),
+                "fault at storage call {i} ({kind:?}) of {:?} (result {res:?}): a fresh handle sees a state that is neither the complete before-state nor the complete after-state of the action:\n  {got:?}\nbefore: {b:?}\nafter:  {a:?}",
+                c.last
             );
             crate::ensure!(
                 got == states[commits],
@@ -509,7 +544,7 @@ pub fn run(e: &Engine) {
     e.campaign(
         "crash-points",
         "generated history on a SQLite replica X (commits with status changes, undo, rebuilds, syncs, interleaved with another replica's synced commits), then for the LAST action every storage-call index x {error, stop} on a copy of the directory; a fresh handle must see exactly the state after the transactions that had committed; evaluations count crash points; non-trivial = the crash point lay inside an uncommitted transaction that would have changed the state",
-        e.tier.pick(56, 3000),
+        e.tier.pick(300, 8000),
         strategy,
         |c| serde_json::to_value(c).unwrap(),
         check_case,
@@ -518,7 +553,7 @@ pub fn run(e: &Engine) {
         return;
     }
     // (b) real kills, driven from here so that each case spawns one child
-    let kills = e.tier.pick(64, 2500) as usize;
+    let kills = e.tier.pick(160, 4000) as usize;
     let strat = kill_strategy();
     let mut fps = vec![];
     let mut inside = 0u64;
